@@ -922,8 +922,10 @@ spifconf_parse_line(FILE * fp, spif_charptr_t buff)
               if (!(fp = spifconf_open_file(path))) {
                   libast_print_error("Parsing file %s, line %lu:  Unable to locate %%included config file %s (%s), continuing\n", file_peek_path(),
                               file_peek_line(), path, strerror(errno));
+                  FREE(path);
               } else {
-                  file_push(fp, path, NULL, 1, 0);
+                  /* The file state keeps the name until the file has been read. */
+                  file_push(fp, path, NULL, 1, FILE_PATH_ALLOCATED);
               }
           } else if (!BEG_STRCASECMP(spiftool_get_pword(1, buff + 1), "preproc ")) {
               spif_char_t cmd[PATH_MAX], fname[PATH_MAX];
@@ -1027,6 +1029,9 @@ spifconf_parse(spif_charptr_t conf_name, const spif_charptr_t dir, const spif_ch
         if (file_peek_preproc()) {
             remove((char *) file_peek_outfile());
             FREE(file_peek_outfile());
+        }
+        if (file_peek().flags & FILE_PATH_ALLOCATED) {
+            FREE(file_peek_path());
         }
         file_pop();
     }
